@@ -4,3 +4,4 @@ import Props.C12
 import Props.C13
 import Props.C14
 import Props.C16
+import Props.C20
